@@ -43,6 +43,8 @@ def w_solver_pool(ctx, rng, idx):
     from . import c06
     tt, sle, evp, ode = M['tt'], M['sle'], M['evp'], M['ode']
     d = int(rng.integers(2, 4))
+    if idx % 5 == 0 and rng.random() < 0.35:
+        d = 1  # a one-core system: the micro system IS the system and the micro right-hand side may be the caller's core itself
     dims = [int(rng.integers(1, 4)) for _ in range(d)]
     if int(np.prod(dims)) == 1:
         dims[0] = 2
@@ -69,8 +71,18 @@ def w_solver_pool(ctx, rng, idx):
         return r if ok else None
     if kind == 0:
         x = step('sle.als', sle.als, A, g, b, repeats=int(rng.integers(1, 3)), solver=['solve', 'lu'][int(rng.integers(0, 2))])
-        y = step('sle.mals', sle.mals, A, g, b, repeats=1, threshold=1e-12)
+        y = step('sle.mals', sle.mals, A, g, b, repeats=1, threshold=1e-12) if d > 1 else None
         new = [x, y]
+        ms = ['solve', 'lu'][int(rng.integers(0, 2))]
+        with probe.oracle():
+            As = (0.3 / max(A.norm(), 1e-12)) * A
+        pool.add(As, 'init#As')
+        r = step('ode.implicit_euler', ode.implicit_euler, As, b, g, [0.1, 0.1], micro_solver=ms, normalize=0, progress=False)
+        if r is not None:
+            new += list(r[1:])
+        r = step('ode.trapezoidal_rule', ode.trapezoidal_rule, As, b, g, [0.1], micro_solver=ms, normalize=0, progress=False)
+        if r is not None:
+            new += list(r[1:])
     elif kind == 1:
         micro = min(go.ranks[i] * dims[i] * go.ranks[i + 1] for i in range(d))
         r = step('evp.als', evp.als, H, go, number_ev=2 if micro >= 2 else 1, repeats=2, solver='eigh')
